@@ -125,12 +125,18 @@ impl Record {
     /// ```
     pub fn end(&self) -> io::Result<Position> {
         let Some(start) = self.variant_start().transpose()? else {
-            todo!();
+            return Err(io::Error::new(
+                io::ErrorKind::InvalidData,
+                "missing variant start",
+            ));
         };
 
         let len = self.rlen()?;
 
-        start.checked_add(len - 1).ok_or_else(|| {
+        // The reference length is read from the record and can be 0.
+        let end = len.checked_sub(1).and_then(|n| start.checked_add(n));
+
+        end.ok_or_else(|| {
             io::Error::new(
                 io::ErrorKind::InvalidData,
                 "calculation of the end position overflowed",
